@@ -6,7 +6,11 @@
    (`OsLoaded`, provably what `newSim`/`reset` load: `newSim_osLoaded`); (3) TRAP entry into the routine the vector
    names (`trap_step_os`) and the closing RTI (`return_from`, `Returned`); (4) the routines: GETC (`getc_trap`),
    OUT (`out_trap`), HALT (`halt_contract`, `halt_trap`).  Devices enter only through `DevHandler.ioRead/ioWrite`
-   results named in the hypotheses (`Polls`), so the statements hold for every device set. -/
+   results named in the hypotheses (`Polls`), so the statements hold for every device set.
+   All contracts are about the PUBLIC `step` function (`feN n` = n calls of `Sim.step`): the device poll that opens every
+   step is required to be quiet, as a closed set of device configurations `Q` (`QuietSet`: poll reports nothing and changes
+   nothing; closed under device reads and DDR stores); `stdDev_quiet`: the default devices (keyboard with interrupts disabled,
+   display) in any buffer/lock state form such a set.  `step_quiet` is the bridge from `fetchExec` to `step`. -/
 import Lc3V.Lemmas.C11Core
 import Lc3V.Lemmas.Psr
 import Lc3V.Lemmas.BitTac
@@ -47,6 +51,54 @@ theorem fetchExec_of_exec (s t : Sim) (instr : SimInstr) (hs : s.flags.strict = 
     (hd : SimInstr.decode (s.memAt s.pc).data = .ok instr)
     (hx : execInstr instr (fetched s) = (.ok (), t)) : fetchExec s = (.ok (), countInstr t) := by
   rw [fetchExec_plain s instr hs (Or.inl (by simp [defaultCtx, hp])) hio hd, hx]
+
+/-- the device poll that opens every step reports nothing and leaves the devices as they are -/
+def QuietDev (s : Sim) : Prop := s.dev.pollInterrupt = (none, s.dev)
+
+/-- with a quiet poll the public `step` is the fetch-execute function (C10.gate says when the poll takes an interrupt) -/
+theorem step_quiet (s t : Sim) (instr : SimInstr) (hq : QuietDev s)
+    (hs : s.flags.strict = false) (hp : s.defaultCtx.privileged = true ∨ inUser s.pc = true)
+    (hio : s.pc.toNat < IO_START) (hd : SimInstr.decode (s.memAt s.pc).data = .ok instr)
+    (h : fetchExec s = (.ok (), t)) : Sim.step s = (.ok (), t) := by
+  have h1 : stepInner s = fetchExec (afterPoll s) := by
+    unfold stepInner; rw [hq]
+  have h2 : fetchExec (afterPoll s) = fetchExec s := by
+    rw [fetchExec_plain (afterPoll s) instr hs hp hio hd, fetchExec_plain s instr hs hp hio hd]
+    have : fetched (afterPoll s) = fetched s := by
+      unfold fetched afterPoll; rw [hq]; rfl
+    rw [this]
+  unfold Sim.step
+  rw [h1, h2, h]
+  simp only
+  split <;> rfl
+
+/-- a set of device configurations in which the poll is quiet and which is closed under device reads and under stores to
+    DDR (the only device store the OS routines make): with the devices in such a set no interrupt is ever requested, so
+    every `step` of a routine is its fetch-execute function; `stdDev_quiet`: the default device set is one -/
+structure QuietSet (Q : DevHandler → Prop) : Prop where
+  quiet : ∀ d, Q d → d.pollInterrupt = (none, d)
+  read : ∀ d port, Q d → Q (d.ioRead port true).2
+  write : ∀ d v, Q d → Q (d.ioWrite 0xFE06 v).2
+
+theorem QuietSet.dev {Q : DevHandler → Prop} (QS : QuietSet Q) {s : Sim} (h : Q s.dev) : QuietDev s := QS.quiet _ h
+
+theorem QuietSet.ofRead {Q : DevHandler → Prop} (QS : QuietSet Q) {d d1 : DevHandler} {port : W} {r : Option W}
+    (h : Q d) (hr : d.ioRead port true = (r, d1)) : Q d1 := by
+  have := QS.read d port h; rw [hr] at this; exact this
+
+theorem QuietSet.ofWrite {Q : DevHandler → Prop} (QS : QuietSet Q) {d d1 : DevHandler} {v : W} {ok : Bool}
+    (h : Q d) (hw : d.ioWrite 0xFE06 v = (ok, d1)) : Q d1 := by
+  have := QS.write d v h; rw [hw] at this; exact this
+
+theorem Q_of_dev {Q : DevHandler → Prop} {s t : Sim} (h : t.dev = s.dev) (hq : Q s.dev) : Q t.dev := by rw [h]; exact hq
+
+/-- a supervisor step at a plain cell with a quiet poll, packaged: if the execute stage succeeds from the fetched
+    state, the public `step` succeeds with the counted state -/
+theorem step_of_exec {Q : DevHandler → Prop} (QS : QuietSet Q) (s t : Sim) (instr : SimInstr) (hs : s.flags.strict = false)
+    (hp : PSR.privileged s.psr = true) (hio : s.pc.toNat < IO_START)
+    (hd : SimInstr.decode (s.memAt s.pc).data = .ok instr) (hq : Q s.dev)
+    (hx : execInstr instr (fetched s) = (.ok (), t)) : Sim.step s = (.ok (), countInstr t) :=
+  step_quiet s _ instr (QS.dev hq) hs (Or.inl (by simp [defaultCtx, hp])) hio hd (fetchExec_of_exec s t instr hs hp hio hd hx)
 
 /-- a tracked privileged read of a device port (not an internal register) that the device answers -/
 theorem readMem_io (s : Sim) (a : W) (c : Ctx) (data : W) (d' : DevHandler) (hp : c.privileged = true)
@@ -110,35 +162,36 @@ theorem MemLow.trans {s t u : Sim} (h1 : MemLow s t) (h2 : MemLow t u) : MemLow 
   fun b hb => (h2 b hb).trans (h1 b hb)
 
 /-- one supervisor step: `LDI dr` through a plain pointer cell to a device port -/
-theorem step_ldi_io (s : Sim) (dr : Reg) (off : BitVec 9) (port data : W) (d' : DevHandler)
+theorem step_ldi_io {Q : DevHandler → Prop} (QS : QuietSet Q) (s : Sim) (q_s : Q s.dev) (dr : Reg) (off : BitVec 9) (port data : W) (d' : DevHandler)
     (hs : s.flags.strict = false) (hp : PSR.privileged s.psr = true) (hpc : s.pc.toNat < IO_START)
     (hd : SimInstr.decode (s.memAt s.pc).data = .ok (.ldi dr off))
     (hptr : (s.pc + 1 + off.signExtend 16).toNat < IO_START)
     (hpv : (s.memAt (s.pc + 1 + off.signExtend 16)).data = port)
     (hio : IO_START ≤ port.toNat) (hlk : s.iregLookup port = none)
     (hr : s.dev.ioRead port true = (some data, d')) :
-    ∃ t, fetchExec s = (.ok (), t) ∧ t.pc = s.pc + 1 ∧ t.reg dr = Word.ofData data ∧
-      (∀ r, r ≠ dr → t.reg r = s.reg r) ∧ t.psr = ccOf s.psr data ∧ t.dev = d' ∧ ctl t = ctl s ∧ MemLow s t := by
+    ∃ t, Sim.step s = (.ok (), t) ∧ t.pc = s.pc + 1 ∧ t.reg dr = Word.ofData data ∧
+      (∀ r, r ≠ dr → t.reg r = s.reg r) ∧ t.psr = ccOf s.psr data ∧ t.dev = d' ∧ ctl t = ctl s ∧ MemLow s t ∧ Q t.dev := by
   obtain ⟨t, hx, tr, tro, tpsr, tpc, tdev, tctl, tmem⟩ :=
     exec_ldi_io (fetched s) dr off port data d' hs hp hptr hpv hio hlk hr
-  refine ⟨countInstr t, fetchExec_of_exec s t _ hs hp hpc hd hx, tpc, tr, tro, tpsr, tdev, tctl, ?_⟩
+  refine ⟨countInstr t, step_of_exec QS s t _ hs hp hpc hd q_s hx, tpc, tr, tro, tpsr, tdev, tctl, ?_,
+    by show Q t.dev; rw [tdev]; exact QS.ofRead q_s hr⟩
   intro b hb
   exact tmem b (by intro e; rw [e] at hb; omega)
 
 /-- one supervisor step: a branch -/
-theorem step_br (s : Sim) (cc : BitVec 3) (off : BitVec 9)
+theorem step_br {Q : DevHandler → Prop} (QS : QuietSet Q) (s : Sim) (q_s : Q s.dev) (cc : BitVec 3) (off : BitVec 9)
     (hs : s.flags.strict = false) (hp : PSR.privileged s.psr = true) (hpc : s.pc.toNat < IO_START)
     (hd : SimInstr.decode (s.memAt s.pc).data = .ok (.br cc off)) :
-    ∃ t, fetchExec s = (.ok (), t) ∧
+    ∃ t, Sim.step s = (.ok (), t) ∧
       t.pc = (if (cc.setWidth 16 &&& PSR.cc s.psr) ≠ 0 then s.pc + 1 + off.signExtend 16 else s.pc + 1) ∧
-      t.regs = s.regs ∧ t.psr = s.psr ∧ t.dev = s.dev ∧ ctl t = ctl s ∧ MemLow s t := by
+      t.regs = s.regs ∧ t.psr = s.psr ∧ t.dev = s.dev ∧ ctl t = ctl s ∧ MemLow s t ∧ Q t.dev := by
   have hx := C08.exec_br (fetched s) cc off hs
   have hcc : PSR.cc (fetched s).psr = PSR.cc s.psr := rfl
-  refine ⟨_, fetchExec_of_exec s _ _ hs hp hpc hd hx, ?_⟩
+  refine ⟨_, step_of_exec QS s _ _ hs hp hpc hd q_s hx, ?_⟩
   rw [hcc]
   by_cases hb : (cc.setWidth 16 &&& PSR.cc s.psr) ≠ 0
-  · simp only [if_pos hb]; exact ⟨rfl, rfl, rfl, rfl, rfl, fun _ _ => rfl⟩
-  · simp only [if_neg hb]; exact ⟨rfl, rfl, rfl, rfl, rfl, fun _ _ => rfl⟩
+  · simp only [if_pos hb]; exact ⟨rfl, rfl, rfl, rfl, rfl, fun _ _ => rfl, q_s⟩
+  · simp only [if_neg hb]; exact ⟨rfl, rfl, rfl, rfl, rfl, fun _ _ => rfl, q_s⟩
 
 theorem cc_setCC_n (p : W) : PSR.cc (PSR.setCC p 4) = 4 := by
   unfold PSR.cc PSR.setCC
@@ -158,16 +211,16 @@ theorem brzp_ccOf (p v : W) : (((3 : BitVec 3).setWidth 16) &&& PSR.cc (ccOf p v
   · simp only [if_true, cc_setCC_n]; decide
 
 /-- one supervisor step: `ADD dr, sr, #imm` -/
-theorem step_add_imm (s : Sim) (dr sr : Reg) (imm : BitVec 5)
+theorem step_add_imm {Q : DevHandler → Prop} (QS : QuietSet Q) (s : Sim) (q_s : Q s.dev) (dr sr : Reg) (imm : BitVec 5)
     (hs : s.flags.strict = false) (hp : PSR.privileged s.psr = true) (hpc : s.pc.toNat < IO_START)
     (hd : SimInstr.decode (s.memAt s.pc).data = .ok (.add dr sr (.imm imm))) :
-    ∃ t, fetchExec s = (.ok (), t) ∧ t.pc = s.pc + 1 ∧ (t.reg dr).data = (s.reg sr).data + imm.signExtend 16 ∧
+    ∃ t, Sim.step s = (.ok (), t) ∧ t.pc = s.pc + 1 ∧ (t.reg dr).data = (s.reg sr).data + imm.signExtend 16 ∧
       (∀ r, r ≠ dr → t.reg r = s.reg r) ∧ t.psr = ccOf s.psr ((s.reg sr).data + imm.signExtend 16) ∧
-      t.dev = s.dev ∧ ctl t = ctl s ∧ t.mem = s.mem := by
+      t.dev = s.dev ∧ ctl t = ctl s ∧ t.mem = s.mem ∧ Q t.dev := by
   have hx := C08.exec_add (fetched s) dr sr (.imm imm) hs
   have hdat : (Word.add ((fetched s).reg sr) ((fetched s).operand2 (.imm imm))).data =
       (s.reg sr).data + imm.signExtend 16 := by rw [C08.add_data]; rfl
-  refine ⟨_, fetchExec_of_exec s _ _ hs hp hpc hd hx, rfl, ?_, ?_, ?_, rfl, rfl, rfl⟩
+  refine ⟨_, step_of_exec QS s _ _ hs hp hpc hd q_s hx, rfl, ?_, ?_, ?_, rfl, rfl, rfl, q_s⟩
   · show ((Sim.setReg (fetched s) dr _).reg dr).data = _
     rw [Sim.reg_setReg, if_pos rfl, hdat]
   · intro r hr
@@ -177,17 +230,17 @@ theorem step_add_imm (s : Sim) (dr sr : Reg) (imm : BitVec 5)
     rw [hdat]; rfl
 
 /-- one supervisor step: `STR sr, b, #off` to plain memory -/
-theorem step_str (s : Sim) (sr b : Reg) (off : BitVec 6)
+theorem step_str {Q : DevHandler → Prop} (QS : QuietSet Q) (s : Sim) (q_s : Q s.dev) (sr b : Reg) (off : BitVec 6)
     (hs : s.flags.strict = false) (hp : PSR.privileged s.psr = true) (hpc : s.pc.toNat < IO_START)
     (hd : SimInstr.decode (s.memAt s.pc).data = .ok (.str sr b off))
     (ha : ((s.reg b).data + off.signExtend 16).toNat < IO_START) :
-    ∃ t, fetchExec s = (.ok (), t) ∧ t.pc = s.pc + 1 ∧ t.regs = s.regs ∧ t.psr = s.psr ∧ t.dev = s.dev ∧
+    ∃ t, Sim.step s = (.ok (), t) ∧ t.pc = s.pc + 1 ∧ t.regs = s.regs ∧ t.psr = s.psr ∧ t.dev = s.dev ∧
       ctl t = ctl s ∧ t.memAt ((s.reg b).data + off.signExtend 16) = s.reg sr ∧
-      (∀ a, a ≠ (s.reg b).data + off.signExtend 16 → t.memAt a = s.memAt a) := by
+      (∀ a, a ≠ (s.reg b).data + off.signExtend 16 → t.memAt a = s.memAt a) ∧ Q t.dev := by
   have hx := C08.exec_str (fetched s) sr b off hs
   have ha' : (((fetched s).reg b).data + off.signExtend 16).toNat < IO_START := ha
   rw [Sim.writeMem_plain_eq _ _ _ _ (Or.inl (priv_ctx (s := fetched s) hp)) ha' (by simp [defaultCtx, fetched, hs]) rfl] at hx
-  refine ⟨_, fetchExec_of_exec s _ _ hs hp hpc hd hx, rfl, rfl, rfl, rfl, rfl, ?_, ?_⟩
+  refine ⟨_, step_of_exec QS s _ _ hs hp hpc hd q_s hx, rfl, rfl, rfl, rfl, rfl, ?_, ?_, q_s⟩
   · show (Sim.setMem _ _ _).memAt _ = _
     rw [Sim.memAt_setMem]; exact if_pos rfl
   · intro a hne
@@ -195,18 +248,18 @@ theorem step_str (s : Sim) (sr b : Reg) (off : BitVec 6)
     rw [Sim.memAt_setMem]; exact if_neg (fun e => hne e.symm)
 
 /-- one supervisor step: `LDR dr, b, #off` from plain memory -/
-theorem step_ldr (s : Sim) (dr b : Reg) (off : BitVec 6)
+theorem step_ldr {Q : DevHandler → Prop} (QS : QuietSet Q) (s : Sim) (q_s : Q s.dev) (dr b : Reg) (off : BitVec 6)
     (hs : s.flags.strict = false) (hp : PSR.privileged s.psr = true) (hpc : s.pc.toNat < IO_START)
     (hd : SimInstr.decode (s.memAt s.pc).data = .ok (.ldr dr b off))
     (ha : ((s.reg b).data + off.signExtend 16).toNat < IO_START) :
-    ∃ t, fetchExec s = (.ok (), t) ∧ t.pc = s.pc + 1 ∧ t.reg dr = s.memAt ((s.reg b).data + off.signExtend 16) ∧
+    ∃ t, Sim.step s = (.ok (), t) ∧ t.pc = s.pc + 1 ∧ t.reg dr = s.memAt ((s.reg b).data + off.signExtend 16) ∧
       (∀ r, r ≠ dr → t.reg r = s.reg r) ∧
       t.psr = ccOf s.psr (s.memAt ((s.reg b).data + off.signExtend 16)).data ∧ t.dev = s.dev ∧
-      ctl t = ctl s ∧ t.mem = s.mem := by
+      ctl t = ctl s ∧ t.mem = s.mem ∧ Q t.dev := by
   have hx := C08.exec_ldr (fetched s) dr b off hs
   have ha' : (((fetched s).reg b).data + off.signExtend 16).toNat < IO_START := ha
   rw [Sim.readMem_plain_eq _ _ _ (Or.inl (priv_ctx (s := fetched s) hp)) ha' rfl] at hx
-  refine ⟨_, fetchExec_of_exec s _ _ hs hp hpc hd hx, rfl, ?_, ?_, rfl, rfl, rfl, rfl⟩
+  refine ⟨_, step_of_exec QS s _ _ hs hp hpc hd q_s hx, rfl, ?_, ?_, rfl, rfl, rfl, rfl, q_s⟩
   · show (Sim.setReg _ dr _).reg dr = _
     rw [Sim.reg_setReg, if_pos rfl]; rfl
   · intro r hr
@@ -231,15 +284,15 @@ theorem writeMem_io (s : Sim) (a : W) (w : Word) (c : Ctx) (ok : Bool) (d' : Dev
     rw [Sim.memAt_setMem, if_neg (Ne.symm hb)]
 
 /-- one supervisor step: `STI sr` through a plain pointer cell to a device port -/
-theorem step_sti_io (s : Sim) (sr : Reg) (off : BitVec 9) (port : W) (ok : Bool) (d' : DevHandler)
+theorem step_sti_io {Q : DevHandler → Prop} (QS : QuietSet Q) (s : Sim) (q_s : Q s.dev) (sr : Reg) (off : BitVec 9) (port : W) (ok : Bool) (d' : DevHandler)
     (hs : s.flags.strict = false) (hp : PSR.privileged s.psr = true) (hpc : s.pc.toNat < IO_START)
     (hd : SimInstr.decode (s.memAt s.pc).data = .ok (.sti sr off))
     (hptr : (s.pc + 1 + off.signExtend 16).toNat < IO_START)
     (hpv : (s.memAt (s.pc + 1 + off.signExtend 16)).data = port)
     (hio : IO_START ≤ port.toNat) (hlk : s.iregLookup port = none)
-    (hw : s.dev.ioWrite port (s.reg sr).data = (ok, d')) :
-    ∃ t, fetchExec s = (.ok (), t) ∧ t.pc = s.pc + 1 ∧ t.regs = s.regs ∧ t.psr = s.psr ∧ t.dev = d' ∧
-      ctl t = ctl s ∧ MemLow s t := by
+    (hw : s.dev.ioWrite port (s.reg sr).data = (ok, d')) (q_d : Q d') :
+    ∃ t, Sim.step s = (.ok (), t) ∧ t.pc = s.pc + 1 ∧ t.regs = s.regs ∧ t.psr = s.psr ∧ t.dev = d' ∧
+      ctl t = ctl s ∧ MemLow s t ∧ Q t.dev := by
   have hx := C08.exec_sti (fetched s) sr off hs
   have hptr' : ((fetched s).pc + off.signExtend 16).toNat < IO_START := hptr
   rw [Sim.readMem_plain_eq (fetched s) _ _ (Or.inl (priv_ctx (s := fetched s) hp)) hptr' rfl] at hx
@@ -252,7 +305,8 @@ theorem step_sti_io (s : Sim) (sr : Reg) (off : BitVec 9) (port : W) (ok : Bool)
     { privileged := PSR.privileged s.psr || s.flags.ignorePriv, strict := false, ioEffects := true, track := true }
     ok d' (by simp [hp]) hio hlk hw rfl rfl
   have hx' : execInstr (.sti sr off) (fetched s) = (.ok (), t) := hx.trans hwr
-  refine ⟨countInstr t, fetchExec_of_exec s t _ hs hp hpc hd hx', tpc, tregs, tpsr, tdev, tctl, ?_⟩
+  refine ⟨countInstr t, step_of_exec QS s t _ hs hp hpc hd q_s hx', tpc, tregs, tpsr, tdev, tctl, ?_,
+    by show Q t.dev; rw [tdev]; exact q_d⟩
   intro b hb
   exact tmem b (by intro e; rw [e] at hb; omega)
 
@@ -304,13 +358,13 @@ theorem OsLoaded.pointer {s : Sim} (h : OsLoaded s) {a : Nat} {o : BitVec 9} {de
   exact ⟨by rw [BitVec.toNat_ofNat]; unfold IO_START; omega, rfl⟩
 
 
-/-- `n` fetch-execute steps in a row -/
+/-- `n` public `step`s in a row -/
 def feN : Nat → SimM Unit
   | 0 => Pure.pure ()
-  | n + 1 => fetchExec >>= fun _ => feN n
+  | n + 1 => Sim.step >>= fun _ => feN n
 
-theorem feN_succ {s t : Sim} (n : Nat) (h : fetchExec s = (.ok (), t)) : feN (n + 1) s = feN n t := by
-  show (fetchExec >>= fun _ => feN n) s = _
+theorem feN_succ {s t : Sim} (n : Nat) (h : Sim.step s = (.ok (), t)) : feN (n + 1) s = feN n t := by
+  show (Sim.step >>= fun _ => feN n) s = _
   rw [bind_apply, h]
 
 theorem feN_zero (s : Sim) : feN 0 s = (.ok (), s) := rfl
@@ -320,10 +374,10 @@ theorem feN_add {s t : Sim} (m n : Nat) (h : feN m s = (.ok (), t)) : feN (m + n
   | zero => rw [feN_zero] at h; cases h; simp
   | succ k ih =>
     rw [show k + 1 + n = (k + n) + 1 from by omega]
-    show (fetchExec >>= fun _ => feN (k + n)) s = _
-    have h' : (fetchExec >>= fun _ => feN k) s = (.ok (), t) := h
+    show (Sim.step >>= fun _ => feN (k + n)) s = _
+    have h' : (Sim.step >>= fun _ => feN k) s = (.ok (), t) := h
     rw [bind_apply] at h' ⊢
-    rcases hf : fetchExec s with ⟨_ | _, u⟩
+    rcases hf : Sim.step s with ⟨_ | _, u⟩
     · rw [hf] at h'; cases h'
     · rw [hf] at h'; exact ih h'
 
@@ -348,15 +402,15 @@ structure InOs (s : Sim) : Prop where
 
 /-- GETC, keyboard not ready: the poll reads KBSR (device goes to `d1`), and control is back at the routine's
     entry with only R0 and the condition codes changed -/
-theorem getc_wait (x : Sim) (hx : InOs x) (hpc : x.pc = BitVec.ofNat 16 (vec 0x20))
+theorem getc_wait {Q : DevHandler → Prop} (QS : QuietSet Q) (x : Sim) (q_x : Q x.dev) (hx : InOs x) (hpc : x.pc = BitVec.ofNat 16 (vec 0x20))
     (hlk : x.iregLookup 0xFE00 = none) (st : W) (d1 : DevHandler)
     (hr : x.dev.ioRead 0xFE00 true = (some st, d1)) (hst : st.msb = false) :
     ∃ t, feN 2 x = (.ok (), t) ∧ t.pc = x.pc ∧ (∀ r, r ≠ 0 → t.reg r = x.reg r) ∧ t.dev = d1 ∧ ctl t = ctl x ∧
-      MemLow x t ∧ InOs t ∧ PSR.priority t.psr = PSR.priority x.psr := by
+      MemLow x t ∧ InOs t ∧ PSR.priority t.psr = PSR.priority x.psr ∧ Q t.dev := by
   obtain ⟨o1, ob, o2, h0, h1, h2, h3, p1, hb, p2⟩ := chkGetc_spec getc_listing
   obtain ⟨hd0, l0⟩ := hx.os.decode h0 hpc
   obtain ⟨hp0, hv0⟩ := hx.os.pointer p1 hpc
-  obtain ⟨t1, f1, pc1, r1, ro1, psr1, dev1, ctl1, mem1⟩ := step_ldi_io x 0 o1 0xFE00 st d1 hx.nonstrict hx.sup
+  obtain ⟨t1, f1, pc1, r1, ro1, psr1, dev1, ctl1, mem1, q_t1⟩ := step_ldi_io QS x q_x 0 o1 0xFE00 st d1 hx.nonstrict hx.sup
     (by unfold IO_START; omega) hd0 hp0 hv0 (by decide) hlk hr
   have os1 := hx.os.of_memLow mem1
   have ns1 : t1.flags.strict = false := by
@@ -364,11 +418,11 @@ theorem getc_wait (x : Sim) (hx : InOs x) (hpc : x.pc = BitVec.ofNat 16 (vec 0x2
   have sup1 : PSR.privileged t1.psr = true := by rw [psr1, ccOf, PSR.privileged_setCC]; exact hx.sup
   have hpc1 : t1.pc = BitVec.ofNat 16 (vec 0x20 + 1) := by rw [pc1, hpc]; bv_omega
   obtain ⟨hd1, l1⟩ := os1.decode h1 hpc1
-  obtain ⟨t2, f2, pc2, r2, psr2, dev2, ctl2, mem2⟩ := step_br t1 3 ob ns1 sup1 (by unfold IO_START; omega) hd1
+  obtain ⟨t2, f2, pc2, r2, psr2, dev2, ctl2, mem2, q_t2⟩ := step_br QS t1 q_t1 3 ob ns1 sup1 (by unfold IO_START; omega) hd1
   have taken : (((3 : BitVec 3).setWidth 16) &&& PSR.cc t1.psr) ≠ 0 := by rw [psr1]; exact (brzp_ccOf _ _).mpr hst
   rw [if_pos taken] at pc2
   refine ⟨t2, ?_, ?_, ?_, ?_, ?_, mem1.trans mem2, ⟨os1.of_memLow mem2, ?_, ?_⟩,
-    by rw [psr2, psr1, ccOf, PSR.priority_setCC]⟩
+    by rw [psr2, psr1, ccOf, PSR.priority_setCC], q_t2⟩
   · rw [feN_succ 1 f1, feN_succ 0 f2]; rfl
   · rw [pc2, hpc1, hpc]
     have hback : BitVec.ofNat 16 (vec 0x20 + 1 + 1) + ob.signExtend 16 = BitVec.ofNat 16 (vec 0x20) := by
@@ -392,23 +446,23 @@ theorem InOs.step {s t : Sim} (h : InOs s) (hm : MemLow s t) (hc : ctl t = ctl s
 
 /-- GETC, keyboard ready: KBSR is read (device `d1`), then KBDR (device `d2`, byte `b`); control is at the routine's
     RTI with the byte in R0, every other register, all memory below the I/O page and the control state unchanged -/
-theorem getc_ready (x : Sim) (hx : InOs x) (hpc : x.pc = BitVec.ofNat 16 (vec 0x20))
+theorem getc_ready {Q : DevHandler → Prop} (QS : QuietSet Q) (x : Sim) (q_x : Q x.dev) (hx : InOs x) (hpc : x.pc = BitVec.ofNat 16 (vec 0x20))
     (hlk : x.iregLookup 0xFE00 = none) (hlk2 : x.iregLookup 0xFE02 = none) (st b : W) (d1 d2 : DevHandler)
     (hr : x.dev.ioRead 0xFE00 true = (some st, d1)) (hst : st.msb = true)
     (hr2 : d1.ioRead 0xFE02 true = (some b, d2)) :
     ∃ t, feN 3 x = (.ok (), t) ∧ t.pc = BitVec.ofNat 16 (vec 0x20 + 3) ∧ t.reg 0 = Word.ofData b ∧
       (∀ r, r ≠ 0 → t.reg r = x.reg r) ∧ t.dev = d2 ∧ ctl t = ctl x ∧ MemLow x t ∧ InOs t ∧
-      PSR.priority t.psr = PSR.priority x.psr := by
+      PSR.priority t.psr = PSR.priority x.psr ∧ Q t.dev := by
   obtain ⟨o1, ob, o2, h0, h1, h2, h3, p1, hb, p2⟩ := chkGetc_spec getc_listing
   obtain ⟨hd0, l0⟩ := hx.os.decode h0 hpc
   obtain ⟨hp0, hv0⟩ := hx.os.pointer p1 hpc
-  obtain ⟨t1, f1, pc1, r1, ro1, psr1, dev1, ctl1, mem1⟩ := step_ldi_io x 0 o1 0xFE00 st d1 hx.nonstrict hx.sup
+  obtain ⟨t1, f1, pc1, r1, ro1, psr1, dev1, ctl1, mem1, q_t1⟩ := step_ldi_io QS x q_x 0 o1 0xFE00 st d1 hx.nonstrict hx.sup
     (by unfold IO_START; omega) hd0 hp0 hv0 (by decide) hlk hr
   have sup1 : PSR.privileged t1.psr = true := by rw [psr1, ccOf, PSR.privileged_setCC]; exact hx.sup
   have in1 := hx.step mem1 ctl1 sup1
   have hpc1 : t1.pc = BitVec.ofNat 16 (vec 0x20 + 1) := by rw [pc1, hpc]; bv_omega
   obtain ⟨hd1, l1⟩ := in1.os.decode h1 hpc1
-  obtain ⟨t2, f2, pc2, r2, psr2, dev2, ctl2, mem2⟩ := step_br t1 3 ob in1.nonstrict sup1 (by unfold IO_START; omega) hd1
+  obtain ⟨t2, f2, pc2, r2, psr2, dev2, ctl2, mem2, q_t2⟩ := step_br QS t1 q_t1 3 ob in1.nonstrict sup1 (by unfold IO_START; omega) hd1
   have nottaken : ¬ (((3 : BitVec 3).setWidth 16) &&& PSR.cc t1.psr) ≠ 0 := by
     rw [psr1, brzp_ccOf, hst]; simp
   rw [if_neg nottaken] at pc2
@@ -421,10 +475,10 @@ theorem getc_ready (x : Sim) (hx : InOs x) (hpc : x.pc = BitVec.ofNat 16 (vec 0x
     have e : t2.iregs = x.iregs := by
       have a := congrArg (·.2.1) ctl2; have b := congrArg (·.2.1) ctl1; simp only [ctl] at a b; rw [a, b]
     unfold iregLookup at hlk2 ⊢; rw [e]; exact hlk2
-  obtain ⟨t3, f3, pc3, r3, ro3, psr3, dev3, ctl3, mem3⟩ := step_ldi_io t2 0 o2 0xFE02 b d2 in2.nonstrict sup2
+  obtain ⟨t3, f3, pc3, r3, ro3, psr3, dev3, ctl3, mem3, q_t3⟩ := step_ldi_io QS t2 q_t2 0 o2 0xFE02 b d2 in2.nonstrict sup2
     (by unfold IO_START; omega) hd2 hp2 hv2 (by decide) lk2 (by rw [dev2, dev1]; exact hr2)
   have sup3 : PSR.privileged t3.psr = true := by rw [psr3, ccOf, PSR.privileged_setCC]; exact sup2
-  refine ⟨t3, ?_, ?_, r3, ?_, dev3, ?_, (mem1.trans mem2).trans mem3, in2.step mem3 ctl3 sup3, ?_⟩
+  refine ⟨t3, ?_, ?_, r3, ?_, dev3, ?_, (mem1.trans mem2).trans mem3, in2.step mem3 ctl3 sup3, ?_, q_t3⟩
   · rw [feN_succ 2 f1, feN_succ 1 f2, feN_succ 0 f3]; rfl
   · rw [pc3, hpc2]; bv_omega
   · intro r hr'
@@ -513,24 +567,26 @@ theorem trap_entry_os (s : Sim) (v : BitVec 8) (w : W) (hos : OsLoaded s) (hs : 
 /-- a `TRAP v` instruction fetched from plain memory (user code or a routine calling another) and executed, with the
     OS loaded and the supervisor stack in plain memory above the OS image: the machine is at the routine the vector
     names, in supervisor mode, with the return address and the caller's PSR on the stack -/
-theorem trap_step_os (s : Sim) (v : BitVec 8) (w : W) (hos : OsLoaded s) (hs : s.flags.strict = false)
+theorem trap_step_os {Q : DevHandler → Prop} (QS : QuietSet Q) (s : Sim) (q_s : Q s.dev) (v : BitVec 8) (w : W) (hos : OsLoaded s) (hs : s.flags.strict = false)
     (hp : s.defaultCtx.privileged = true ∨ inUser s.pc = true) (hpc : s.pc.toNat < IO_START)
     (hd : SimInstr.decode (s.memAt s.pc).data = .ok (.trap v))
     (h1 : 767 ≤ (entrySp s - 1).toNat ∧ (entrySp s - 1).toNat < IO_START)
     (h2 : 767 ≤ (entrySp s - 2).toNat ∧ (entrySp s - 2).toNat < IO_START)
     (hvirt : realIntVect (v.setWidth 16) = none ∨ s.flags.realTraps = true)
     (hw : osWord v.toNat = some w) :
-    ∃ x, fetchExec s = (.ok (), x) ∧ InOs x ∧ x.pc = w ∧
+    ∃ x, Sim.step s = (.ok (), x) ∧ InOs x ∧ x.pc = w ∧
       x.memAt (entrySp s - 2) = Word.ofData (s.pc + 1) ∧ x.memAt (entrySp s - 1) = Word.ofData s.psr ∧
       (∀ a, a ≠ entrySp s - 1 → a ≠ entrySp s - 2 → x.memAt a = s.memAt a) ∧
       (x.reg R6).data = entrySp s - 2 ∧ (∀ r, r ≠ R6 → x.reg r = s.reg r) ∧
       PSR.priority x.psr = PSR.priority s.psr ∧
       x.savedSp = (if PSR.privileged s.psr then s.savedSp else s.reg R6) ∧
-      x.frameNo = s.frameNo + 1 ∧ x.dev = s.dev ∧ x.flags = s.flags ∧ x.iregs = s.iregs ∧ x.mcr = s.mcr := by
+      x.frameNo = s.frameNo + 1 ∧ x.dev = s.dev ∧ x.flags = s.flags ∧ x.iregs = s.iregs ∧ x.mcr = s.mcr ∧
+      Q x.dev := by
   obtain ⟨x, hx, inx, a1, a2, a3, a4, a5, a6, a7, a8, a9, a10, a11, a12, a13⟩ :=
     trap_entry_os (fetched s) v w hos hs h1 h2 hvirt hw
-  refine ⟨countInstr x, ?_, ⟨inx.os, inx.nonstrict, inx.sup⟩, a1, a2, a3, a4, a5, a6, a7, a8, a9, a10, a11, a12, a13⟩
-  rw [fetchExec_plain s _ hs hp hpc hd, hx]
+  refine ⟨countInstr x, ?_, ⟨inx.os, inx.nonstrict, inx.sup⟩, a1, a2, a3, a4, a5, a6, a7, a8, a9, a10, a11, a12, a13,
+    by show Q x.dev; rw [a10]; exact q_s⟩
+  exact step_quiet s _ _ (QS.dev q_s) hs hp hpc hd (by rw [fetchExec_plain s _ hs hp hpc hd, hx])
 
 set_option linter.unusedSimpArgs false in
 theorem rti_iregs (x : Sim) (hs : x.flags.strict = false) (hp : PSR.privileged x.psr = true ∨ x.flags.ignorePriv = true)
@@ -556,21 +612,23 @@ theorem rti_iregs (x : Sim) (hs : x.flags.strict = false) (hp : PSR.privileged x
     exact ⟨rfl, rfl⟩
 
 /-- the closing RTI of a routine, fetched and executed -/
-theorem step_rti (t : Sim) (hs : t.flags.strict = false) (hp : PSR.privileged t.psr = true)
+theorem step_rti {Q : DevHandler → Prop} (QS : QuietSet Q) (t : Sim) (q_t : Q t.dev) (hs : t.flags.strict = false) (hp : PSR.privileged t.psr = true)
     (hpc : t.pc.toNat < IO_START) (hd : SimInstr.decode (t.memAt t.pc).data = .ok .rti)
     (h1 : ((t.reg R6).data).toNat < IO_START) (h2 : ((t.reg R6).data + 1).toNat < IO_START) :
-    ∃ f, fetchExec t = (.ok (), f) ∧
+    ∃ f, Sim.step t = (.ok (), f) ∧
       f.pc = (t.memAt (t.reg R6).data).data ∧ f.psr = (t.memAt ((t.reg R6).data + 1)).data ∧
       f.mem = t.mem ∧ f.frameNo = t.frameNo - 1 ∧
       (PSR.privileged (t.memAt ((t.reg R6).data + 1)).data = true →
          f.reg R6 = Word.add (t.reg R6) (Word.ofData 2) ∧ f.savedSp = t.savedSp) ∧
       (PSR.privileged (t.memAt ((t.reg R6).data + 1)).data = false →
          f.reg R6 = t.savedSp ∧ f.savedSp = Word.add (t.reg R6) (Word.ofData 2)) ∧
-      (∀ r, r ≠ R6 → f.reg r = t.reg r) ∧ f.dev = t.dev ∧ f.flags = t.flags ∧ f.iregs = t.iregs ∧ f.mcr = t.mcr := by
+      (∀ r, r ≠ R6 → f.reg r = t.reg r) ∧ f.dev = t.dev ∧ f.flags = t.flags ∧ f.iregs = t.iregs ∧ f.mcr = t.mcr ∧
+      Q f.dev := by
   obtain ⟨f, hx, a1, a2, a3, a4, a5, a6, a7, a8, a9⟩ := C10.rti_spec (fetched t) hs (Or.inl hp) h1 h2
   obtain ⟨b1, b2⟩ := rti_iregs (fetched t) hs (Or.inl hp) h1 h2
   rw [hx] at b1 b2
-  exact ⟨countInstr f, fetchExec_of_exec t f _ hs hp hpc hd hx, a1, a2, a3, a4, a5, a6, a7, a8, a9, b1, b2⟩
+  exact ⟨countInstr f, step_of_exec QS t f _ hs hp hpc hd q_t hx, a1, a2, a3, a4, a5, a6, a7, a8, a9, b1, b2,
+    by show Q f.dev; rw [a8]; exact q_t⟩
 
 
 theorem lookup_of_ctl {s t : Sim} (h : ctl t = ctl s) (a : W) : t.iregLookup a = s.iregLookup a := by
@@ -584,27 +642,27 @@ inductive Polls (port : W) : DevHandler → Nat → DevHandler → Prop
       Polls port d1 n d' → Polls port d (n + 1) d'
 
 /-- GETC from its entry to its RTI, after any number of unsuccessful polls -/
-theorem getc_body (n : Nat) : ∀ (x : Sim), InOs x → x.pc = BitVec.ofNat 16 (vec 0x20) →
+theorem getc_body {Q : DevHandler → Prop} (QS : QuietSet Q) (n : Nat) : ∀ (x : Sim), Q x.dev → InOs x → x.pc = BitVec.ofNat 16 (vec 0x20) →
     x.iregLookup 0xFE00 = none → x.iregLookup 0xFE02 = none → ∀ (st b : W) (d0 d1 d2 : DevHandler),
     Polls 0xFE00 x.dev n d0 → d0.ioRead 0xFE00 true = (some st, d1) → st.msb = true →
     d1.ioRead 0xFE02 true = (some b, d2) →
     ∃ t, feN (2 * n + 3) x = (.ok (), t) ∧ t.pc = BitVec.ofNat 16 (vec 0x20 + 3) ∧ t.reg 0 = Word.ofData b ∧
       (∀ r, r ≠ 0 → t.reg r = x.reg r) ∧ t.dev = d2 ∧ ctl t = ctl x ∧ MemLow x t ∧ InOs t ∧
-      PSR.priority t.psr = PSR.priority x.psr := by
+      PSR.priority t.psr = PSR.priority x.psr ∧ Q t.dev := by
   induction n with
   | zero =>
-    intro x hx hpc l1 l2 st b d0 d1 d2 hp hr hst hr2
+    intro x q_x hx hpc l1 l2 st b d0 d1 d2 hp hr hst hr2
     cases hp
-    exact getc_ready x hx hpc l1 l2 st b d1 d2 hr hst hr2
+    exact getc_ready QS x q_x hx hpc l1 l2 st b d1 d2 hr hst hr2
   | succ k ih =>
-    intro x hx hpc l1 l2 st b d0 d1 d2 hp hr hst hr2
+    intro x q_x hx hpc l1 l2 st b d0 d1 d2 hp hr hst hr2
     cases hp with
     | succ hr0 hst0 hrest =>
-      obtain ⟨y, fy, pcy, ry, devy, ctly, memy, iny, pry⟩ := getc_wait x hx hpc l1 _ _ hr0 hst0
-      obtain ⟨t, ft, pct, r0t, rt, devt, ctlt, memt, int, prt⟩ :=
-        ih y iny (by rw [pcy]; exact hpc) (by rw [lookup_of_ctl ctly]; exact l1) (by rw [lookup_of_ctl ctly]; exact l2)
+      obtain ⟨y, fy, pcy, ry, devy, ctly, memy, iny, pry, q_y⟩ := getc_wait QS x q_x hx hpc l1 _ _ hr0 hst0
+      obtain ⟨t, ft, pct, r0t, rt, devt, ctlt, memt, int, prt, q_t⟩ :=
+        ih y q_y iny (by rw [pcy]; exact hpc) (by rw [lookup_of_ctl ctly]; exact l1) (by rw [lookup_of_ctl ctly]; exact l2)
           st b d0 d1 d2 (by rw [devy]; exact hrest) hr hst hr2
-      refine ⟨t, ?_, pct, r0t, ?_, devt, ctlt.trans ctly, memy.trans memt, int, ?_⟩
+      refine ⟨t, ?_, pct, r0t, ?_, devt, ctlt.trans ctly, memy.trans memt, int, ?_, q_t⟩
       · rw [show 2 * (k + 1) + 3 = 2 + (2 * k + 3) from by omega, feN_add 2 (2 * k + 3) fy]; exact ft
       · intro r hr'; rw [rt r hr', ry r hr']
       · rw [prt, pry]
@@ -630,7 +688,7 @@ structure Returned (s f : Sim) (ret : W) (keepR0 : Bool) (E : W → Prop) : Prop
   mcr : f.mcr = s.mcr
 
 /-- RTI at the end of a routine whose body kept R6, the saved SP and the two stack cells -/
-theorem return_from (s x t : Sim) (ret : W) (keepR0 : Bool) (E : W → Prop)
+theorem return_from {Q : DevHandler → Prop} (QS : QuietSet Q) (s x t : Sim) (q_t : Q t.dev) (ret : W) (keepR0 : Bool) (E : W → Prop)
     (h1 : (entrySp s - 1).toNat < IO_START) (h2 : (entrySp s - 2).toNat < IO_START)
     (m2 : x.memAt (entrySp s - 2) = Word.ofData ret) (m1 : x.memAt (entrySp s - 1) = Word.ofData s.psr)
     (mo : ∀ a, a ≠ entrySp s - 1 → a ≠ entrySp s - 2 → x.memAt a = s.memAt a)
@@ -641,9 +699,10 @@ theorem return_from (s x t : Sim) (ret : W) (keepR0 : Bool) (E : W → Prop)
     (tr6 : (t.reg R6).data = (x.reg R6).data) (tro : ∀ r, r ≠ R6 → (keepR0 = false → r ≠ 0) → t.reg r = x.reg r)
     (tctl : ctl t = ctl x) (tmem : ∀ a : W, a.toNat < IO_START → ¬ E a → t.memAt a = x.memAt a)
     (hE1 : ¬ E (entrySp s - 1)) (hE2 : ¬ E (entrySp s - 2)) :
-    ∃ f, fetchExec t = (.ok (), f) ∧ Returned s f ret keepR0 E ∧ f.dev = t.dev ∧ (∀ r, r ≠ R6 → f.reg r = t.reg r) := by
+    ∃ f, Sim.step t = (.ok (), f) ∧ Returned s f ret keepR0 E ∧ f.dev = t.dev ∧ (∀ r, r ≠ R6 → f.reg r = t.reg r) ∧
+      Q f.dev := by
   have e1 : (t.reg R6).data + 1 = entrySp s - 1 := by rw [tr6, r6]; bv_omega
-  obtain ⟨f, hx, fpc, fpsr, fmem, ffn, fk, fu, fro, fdev, ffl, fir, fmc⟩ := step_rti t int.nonstrict int.sup tl hd
+  obtain ⟨f, hx, fpc, fpsr, fmem, ffn, fk, fu, fro, fdev, ffl, fir, fmc, q_f⟩ := step_rti QS t q_t int.nonstrict int.sup tl hd
     (by rw [tr6, r6]; exact h2) (by rw [e1]; exact h1)
   rw [e1, tmem _ h1 hE1, m1] at fpsr fk fu
   rw [tr6, r6, tmem _ h2 hE2, m2] at fpc
@@ -654,7 +713,7 @@ theorem return_from (s x t : Sim) (ret : W) (keepR0 : Bool) (E : W → Prop)
   have tir : t.iregs = x.iregs := by have := congrArg (·.2.1) tctl; simpa only [ctl] using this
   have tmc : t.mcr = x.mcr := by have := congrArg (·.2.2.2.1) tctl; simpa only [ctl] using this
   refine ⟨f, hx, ⟨fpc, fpsr, ?_, ?_, ?_, ?_, by rw [ffl, tfl, hf], by rw [ffn, tfn, hfn]; omega,
-    fun hp => by rw [(fk hp).2, tss, hss]; simp [hp], by rw [fir, tir, hir], by rw [fmc, tmc, hmcr]⟩, fdev, fro⟩
+    fun hp => by rw [(fk hp).2, tss, hss]; simp [hp], by rw [fir, tir, hir], by rw [fmc, tmc, hmcr]⟩, fdev, fro, q_f⟩
   · intro r hr hr0; rw [fro r hr, tro r hr hr0, ro r hr]
   · cases hp : PSR.privileged s.psr
     · rw [(fu hp).1, tss, hss]; simp [hp]
@@ -684,26 +743,26 @@ structure AtTrap (s : Sim) (v : BitVec 8) : Prop where
     instruction after the TRAP with `b` in R0, the keyboard advanced by exactly those reads (`d2`), and the PSR
     (condition codes, privilege, priority), every register other than R0, both stack pointers, the flags and all
     memory below the I/O page except the two supervisor-stack cells unchanged -/
-theorem getc_trap (s : Sim) (n : Nat) (hos : OsLoaded s) (hs : s.flags.strict = false) (hat : AtTrap s 0x20)
+theorem getc_trap {Q : DevHandler → Prop} (QS : QuietSet Q) (s : Sim) (q_s : Q s.dev) (n : Nat) (hos : OsLoaded s) (hs : s.flags.strict = false) (hat : AtTrap s 0x20)
     (h1 : 767 ≤ (entrySp s - 1).toNat ∧ (entrySp s - 1).toNat < IO_START)
     (h2 : 767 ≤ (entrySp s - 2).toNat ∧ (entrySp s - 2).toNat < IO_START)
     (l1 : s.iregLookup 0xFE00 = none) (l2 : s.iregLookup 0xFE02 = none) (st b : W) (d0 d1 d2 : DevHandler)
     (hp : Polls 0xFE00 s.dev n d0) (hr : d0.ioRead 0xFE00 true = (some st, d1)) (hst : st.msb = true)
     (hr2 : d1.ioRead 0xFE02 true = (some b, d2)) :
     ∃ f, feN (2 * n + 5) s = (.ok (), f) ∧
-      Returned s f (s.pc + 1) false (fun _ => False) ∧ f.reg 0 = Word.ofData b ∧ f.dev = d2 := by
+      Returned s f (s.pc + 1) false (fun _ => False) ∧ f.reg 0 = Word.ofData b ∧ f.dev = d2 ∧ Q f.dev := by
   obtain ⟨w, hw⟩ := Option.isSome_iff_exists.mp vec_defined_20_25.1
-  obtain ⟨x, hx, inx, xpc, m2, m1, mo, r6, ro, xprio, hss, hfn, hd, hf, hir, hmcr⟩ :=
-    trap_step_os s 0x20 w hos hs hat.perm hat.plain hat.instr h1 h2 (Or.inl (by decide)) hw
+  obtain ⟨x, hx, inx, xpc, m2, m1, mo, r6, ro, xprio, hss, hfn, hd, hf, hir, hmcr, q_x⟩ :=
+    trap_step_os QS s q_s 0x20 w hos hs hat.perm hat.plain hat.instr h1 h2 (Or.inl (by decide)) hw
   have lk : ∀ a, x.iregLookup a = s.iregLookup a := by intro a; unfold iregLookup; rw [hir]
-  obtain ⟨t, ft, tpc, tr0, tro, tdev, tctl, tmem, int, _⟩ := getc_body n x inx (by rw [xpc]; exact vec_word hw)
+  obtain ⟨t, ft, tpc, tr0, tro, tdev, tctl, tmem, int, _, q_t⟩ := getc_body QS n x q_x inx (by rw [xpc]; exact vec_word hw)
     (by rw [lk]; exact l1) (by rw [lk]; exact l2) st b d0 d1 d2 (by rw [hd]; exact hp) hr hst hr2
   obtain ⟨o1, ob, o2, _, _, _, h3, _, _, _⟩ := chkGetc_spec getc_listing
   obtain ⟨hdr, lr⟩ := int.os.decode h3 tpc
-  obtain ⟨f, ff, ret, fdev, fro⟩ := return_from s x t (s.pc + 1) false (fun _ => False) h1.2 h2.2 m2 m1 mo r6 ro
+  obtain ⟨f, ff, ret, fdev, fro, q_f⟩ := return_from QS s x t q_t (s.pc + 1) false (fun _ => False) h1.2 h2.2 m2 m1 mo r6 ro
     hss hfn hf hir hmcr int (by unfold IO_START; omega) hdr (by rw [tro R6 (by decide)]) (fun r _ h0 => tro r (h0 rfl)) tctl
     (fun a ha _ => tmem a ha) (fun h => h) (fun h => h)
-  refine ⟨f, ?_, ret, ?_, by rw [fdev, tdev]⟩
+  refine ⟨f, ?_, ret, ?_, by rw [fdev, tdev], q_f⟩
   · rw [show 2 * n + 5 = 1 + ((2 * n + 3) + 1) from by omega, feN_add 1 _ (by rw [feN_succ 0 hx]; rfl),
       feN_add (2 * n + 3) 1 ft, feN_succ 0 ff]; rfl
   · rw [fro 0 (by decide), tr0]
@@ -749,12 +808,12 @@ theorem InOs.of_cell {s t : Sim} (h : InOs s) (c : W) (hc : 767 ≤ c.toNat)
   exact h.os a w ha
 
 /-- OUT's prologue: push R0 -/
-theorem out_push (x : Sim) (hx : InOs x) (hpc : x.pc = BitVec.ofNat 16 (vec 0x21))
+theorem out_push {Q : DevHandler → Prop} (QS : QuietSet Q) (x : Sim) (q_x : Q x.dev) (hx : InOs x) (hpc : x.pc = BitVec.ofNat 16 (vec 0x21))
     (hc : 767 ≤ ((x.reg R6).data - 1).toNat ∧ ((x.reg R6).data - 1).toNat < IO_START) :
-    ∃ y, feN 2 x = (.ok (), y) ∧ OutLoop x y ∧ y.dev = x.dev := by
+    ∃ y, feN 2 x = (.ok (), y) ∧ OutLoop x y ∧ y.dev = x.dev ∧ Q y.dev := by
   obtain ⟨o1, ob, o2, h0, h1, _⟩ := chkPutc_spec putc_listing
   obtain ⟨hd0, l0⟩ := hx.os.decode h0 hpc
-  obtain ⟨t1, f1, pc1, r61, ro1, psr1, dev1, ctl1, mem1⟩ := step_add_imm x 6 6 0x1F hx.nonstrict hx.sup
+  obtain ⟨t1, f1, pc1, r61, ro1, psr1, dev1, ctl1, mem1, q_t1⟩ := step_add_imm QS x q_x 6 6 0x1F hx.nonstrict hx.sup
     (by unfold IO_START; omega) hd0
   have sup1 : PSR.privileged t1.psr = true := by rw [psr1, ccOf, PSR.privileged_setCC]; exact hx.sup
   have in1 : InOs t1 := hx.step (fun a _ => by rw [Sim.memAt, mem1]) ctl1 sup1
@@ -763,7 +822,7 @@ theorem out_push (x : Sim) (hx : InOs x) (hpc : x.pc = BitVec.ofNat 16 (vec 0x21
   have sp1 : (t1.reg 6).data = (x.reg R6).data - 1 := by
     rw [r61, sext_m1]; show (x.reg R6).data + 0xFFFF = _; bv_omega
   have ea : (t1.reg 6).data + (0 : BitVec 6).signExtend 16 = (x.reg R6).data - 1 := by rw [sext_0, sp1]; bv_omega
-  obtain ⟨t2, f2, pc2, r2, psr2, dev2, ctl2, cell2, mem2⟩ := step_str t1 0 6 0 in1.nonstrict sup1
+  obtain ⟨t2, f2, pc2, r2, psr2, dev2, ctl2, cell2, mem2, q_t2⟩ := step_str QS t1 q_t1 0 6 0 in1.nonstrict sup1
     (by unfold IO_START; omega) hd1 (by rw [ea]; exact hc.2)
   rw [ea] at cell2 mem2
   have regs2 : ∀ r, t2.reg r = t1.reg r := fun r => by show t2.regs[r.toNat] = _; rw [r2]
@@ -772,32 +831,32 @@ theorem out_push (x : Sim) (hx : InOs x) (hpc : x.pc = BitVec.ofNat 16 (vec 0x21
     intro a _ hne; rw [mem2 a hne, Sim.memAt, mem1]
   refine ⟨t2, by rw [feN_succ 1 f1, feN_succ 0 f2]; rfl,
     ⟨hx.of_cell _ hc.1 m12 (ctl2.trans ctl1) sup2, by rw [pc2, hpc1]; bv_omega, by rw [regs2]; exact sp1, ?_, ?_,
-     ctl2.trans ctl1, m12, by rw [psr2, psr1, ccOf, PSR.priority_setCC], hc.2⟩, by rw [dev2, dev1]⟩
+     ctl2.trans ctl1, m12, by rw [psr2, psr1, ccOf, PSR.priority_setCC], hc.2⟩, by rw [dev2, dev1], q_t2⟩
   · rw [cell2, ro1 0 (by decide)]
   · intro r h0' h6; rw [regs2, ro1 r h6]
 
 
 /-- OUT, display not ready: one poll, back at the loop head -/
-theorem out_wait (x y : Sim) (hy : OutLoop x y) (hlk : y.iregLookup 0xFE04 = none) (st : W) (d1 : DevHandler)
+theorem out_wait {Q : DevHandler → Prop} (QS : QuietSet Q) (x y : Sim) (q_y : Q y.dev) (hy : OutLoop x y) (hlk : y.iregLookup 0xFE04 = none) (st : W) (d1 : DevHandler)
     (hr : y.dev.ioRead 0xFE04 true = (some st, d1)) (hst : st.msb = false) :
-    ∃ t, feN 2 y = (.ok (), t) ∧ OutLoop x t ∧ t.dev = d1 := by
+    ∃ t, feN 2 y = (.ok (), t) ∧ OutLoop x t ∧ t.dev = d1 ∧ Q t.dev := by
   obtain ⟨o1, ob, o2, _, _, h2, h3, _, _, _, _, p1, hb, _⟩ := chkPutc_spec putc_listing
   obtain ⟨hd0, l0⟩ := hy.inos.os.decode h2 hy.pc
   obtain ⟨hp0, hv0⟩ := hy.inos.os.pointer p1 hy.pc
-  obtain ⟨t1, f1, pc1, r1, ro1, psr1, dev1, ctl1, mem1⟩ := step_ldi_io y 0 o1 0xFE04 st d1 hy.inos.nonstrict
+  obtain ⟨t1, f1, pc1, r1, ro1, psr1, dev1, ctl1, mem1, q_t1⟩ := step_ldi_io QS y q_y 0 o1 0xFE04 st d1 hy.inos.nonstrict
     hy.inos.sup (by unfold IO_START; omega) hd0 hp0 hv0 (by decide) hlk hr
   have sup1 : PSR.privileged t1.psr = true := by rw [psr1, ccOf, PSR.privileged_setCC]; exact hy.inos.sup
   have in1 := hy.inos.step mem1 ctl1 sup1
   have hpc1 : t1.pc = BitVec.ofNat 16 (vec 0x21 + 3) := by rw [pc1, hy.pc]; bv_omega
   obtain ⟨hd1, l1⟩ := in1.os.decode h3 hpc1
-  obtain ⟨t2, f2, pc2, r2, psr2, dev2, ctl2, mem2⟩ := step_br t1 3 ob in1.nonstrict sup1 (by unfold IO_START; omega) hd1
+  obtain ⟨t2, f2, pc2, r2, psr2, dev2, ctl2, mem2, q_t2⟩ := step_br QS t1 q_t1 3 ob in1.nonstrict sup1 (by unfold IO_START; omega) hd1
   have taken : (((3 : BitVec 3).setWidth 16) &&& PSR.cc t1.psr) ≠ 0 := by rw [psr1]; exact (brzp_ccOf _ _).mpr hst
   rw [if_pos taken] at pc2
   have sup2 : PSR.privileged t2.psr = true := by rw [psr2]; exact sup1
   have regs2 : ∀ r, t2.reg r = t1.reg r := fun r => by show t2.regs[r.toNat] = _; rw [r2]
   refine ⟨t2, by rw [feN_succ 1 f1, feN_succ 0 f2]; rfl,
     ⟨in1.step mem2 ctl2 sup2, ?_, ?_, ?_, ?_, (ctl2.trans ctl1).trans hy.ctl, ?_,
-     by rw [psr2, psr1, ccOf, PSR.priority_setCC]; exact hy.prio, hy.lt⟩, by rw [dev2, dev1]⟩
+     by rw [psr2, psr1, ccOf, PSR.priority_setCC]; exact hy.prio, hy.lt⟩, by rw [dev2, dev1], q_t2⟩
   · rw [pc2, hpc1]
     have hback : BitVec.ofNat 16 (vec 0x21 + 3 + 1) + ob.signExtend 16 = BitVec.ofNat 16 (vec 0x21 + 2) := by
       apply BitVec.eq_of_toNat_eq
@@ -812,26 +871,26 @@ theorem out_wait (x y : Sim) (hy : OutLoop x y) (hlk : y.iregLookup 0xFE04 = non
 
 
 /-- OUT, display ready: the poll, pop R0, restore R6, store R0 to DDR; control is at the routine's RTI -/
-theorem out_ready (x y : Sim) (hy : OutLoop x y)
+theorem out_ready {Q : DevHandler → Prop} (QS : QuietSet Q) (x y : Sim) (q_y : Q y.dev) (hy : OutLoop x y)
     (hlk : y.iregLookup 0xFE04 = none) (hlk2 : y.iregLookup 0xFE06 = none)
     (st : W) (ok : Bool) (d1 d2 : DevHandler)
     (hr : y.dev.ioRead 0xFE04 true = (some st, d1)) (hst : st.msb = true)
     (hw : d1.ioWrite 0xFE06 (x.reg 0).data = (ok, d2)) :
     ∃ t, feN 5 y = (.ok (), t) ∧ InOs t ∧ t.pc = BitVec.ofNat 16 (vec 0x21 + 7) ∧ t.reg 0 = x.reg 0 ∧
       (t.reg R6).data = (x.reg R6).data ∧ (∀ r, r ≠ 0 → r ≠ R6 → t.reg r = x.reg r) ∧ t.dev = d2 ∧
-      ctl t = ctl x ∧ (∀ a : W, a.toNat < IO_START → a ≠ (x.reg R6).data - 1 → t.memAt a = x.memAt a) := by
+      ctl t = ctl x ∧ (∀ a : W, a.toNat < IO_START → a ≠ (x.reg R6).data - 1 → t.memAt a = x.memAt a) ∧ Q t.dev := by
   obtain ⟨o1, ob, o2, _, _, h2, h3, h4, h5, h6, _, p1, hb, p2⟩ := chkPutc_spec putc_listing
   -- LDI R0, DSR
   obtain ⟨hd0, l0⟩ := hy.inos.os.decode h2 hy.pc
   obtain ⟨hp0, hv0⟩ := hy.inos.os.pointer p1 hy.pc
-  obtain ⟨t1, f1, pc1, r1, ro1, psr1, dev1, ctl1, mem1⟩ := step_ldi_io y 0 o1 0xFE04 st d1 hy.inos.nonstrict
+  obtain ⟨t1, f1, pc1, r1, ro1, psr1, dev1, ctl1, mem1, q_t1⟩ := step_ldi_io QS y q_y 0 o1 0xFE04 st d1 hy.inos.nonstrict
     hy.inos.sup (by unfold IO_START; omega) hd0 hp0 hv0 (by decide) hlk hr
   have sup1 : PSR.privileged t1.psr = true := by rw [psr1, ccOf, PSR.privileged_setCC]; exact hy.inos.sup
   have in1 := hy.inos.step mem1 ctl1 sup1
   have hpc1 : t1.pc = BitVec.ofNat 16 (vec 0x21 + 3) := by rw [pc1, hy.pc]; bv_omega
   -- BRzp (not taken)
   obtain ⟨hd1, l1⟩ := in1.os.decode h3 hpc1
-  obtain ⟨t2, f2, pc2, r2, psr2, dev2, ctl2, mem2⟩ := step_br t1 3 ob in1.nonstrict sup1 (by unfold IO_START; omega) hd1
+  obtain ⟨t2, f2, pc2, r2, psr2, dev2, ctl2, mem2, q_t2⟩ := step_br QS t1 q_t1 3 ob in1.nonstrict sup1 (by unfold IO_START; omega) hd1
   have nottaken : ¬ (((3 : BitVec 3).setWidth 16) &&& PSR.cc t1.psr) ≠ 0 := by
     rw [psr1, brzp_ccOf, hst]; simp
   rw [if_neg nottaken] at pc2
@@ -843,7 +902,7 @@ theorem out_ready (x y : Sim) (hy : OutLoop x y)
   obtain ⟨hd2, l2⟩ := in2.os.decode h4 hpc2
   have sp2 : (t2.reg 6).data = (x.reg R6).data - 1 := by rw [regs2, ro1 6 (by decide)]; exact hy.sp
   have ea : (t2.reg 6).data + (0 : BitVec 6).signExtend 16 = (x.reg R6).data - 1 := by rw [sext_0, sp2]; bv_omega
-  obtain ⟨t3, f3, pc3, r3, ro3, psr3, dev3, ctl3, mem3⟩ := step_ldr t2 0 6 0 in2.nonstrict sup2
+  obtain ⟨t3, f3, pc3, r3, ro3, psr3, dev3, ctl3, mem3, q_t3⟩ := step_ldr QS t2 q_t2 0 6 0 in2.nonstrict sup2
     (by unfold IO_START; omega) hd2 (by rw [ea]; exact hy.lt)
   rw [ea, (mem1.trans mem2) _ hy.lt, hy.cell] at r3
   have sup3 : PSR.privileged t3.psr = true := by rw [psr3, ccOf, PSR.privileged_setCC]; exact sup2
@@ -851,7 +910,7 @@ theorem out_ready (x y : Sim) (hy : OutLoop x y)
   have hpc3 : t3.pc = BitVec.ofNat 16 (vec 0x21 + 5) := by rw [pc3, hpc2]; bv_omega
   -- ADD R6, R6, #1
   obtain ⟨hd3, l3⟩ := in3.os.decode h5 hpc3
-  obtain ⟨t4, f4, pc4, r64, ro4, psr4, dev4, ctl4, mem4⟩ := step_add_imm t3 6 6 1 in3.nonstrict sup3
+  obtain ⟨t4, f4, pc4, r64, ro4, psr4, dev4, ctl4, mem4, q_t4⟩ := step_add_imm QS t3 q_t3 6 6 1 in3.nonstrict sup3
     (by unfold IO_START; omega) hd3
   have sup4 : PSR.privileged t4.psr = true := by rw [psr4, ccOf, PSR.privileged_setCC]; exact sup3
   have in4 : InOs t4 := in3.step (fun a _ => by rw [Sim.memAt, mem4]) ctl4 sup4
@@ -863,9 +922,9 @@ theorem out_ready (x y : Sim) (hy : OutLoop x y)
   obtain ⟨hp4, hv4⟩ := in4.os.pointer p2 hpc4
   have c41 : ctl t4 = ctl y := ctl4.trans (ctl3.trans (ctl2.trans ctl1))
   have r04 : t4.reg 0 = x.reg 0 := by rw [ro4 0 (by decide)]; exact r3
-  obtain ⟨t5, f5, pc5, r5, psr5, dev5, ctl5, mem5⟩ := step_sti_io t4 0 o2 0xFE06 ok d2 in4.nonstrict sup4
+  obtain ⟨t5, f5, pc5, r5, psr5, dev5, ctl5, mem5, q_t5⟩ := step_sti_io QS t4 q_t4 0 o2 0xFE06 ok d2 in4.nonstrict sup4
     (by unfold IO_START; omega) hd4 hp4 hv4 (by decide) (by rw [lookup_of_ctl c41]; exact hlk2)
-    (by rw [dev4, dev3, dev2, dev1, r04]; exact hw)
+    (by rw [dev4, dev3, dev2, dev1, r04]; exact hw) (QS.ofWrite (QS.ofRead q_y hr) hw)
   have sup5 : PSR.privileged t5.psr = true := by rw [psr5]; exact sup4
   have regs5 : ∀ r, t5.reg r = t4.reg r := fun r => by show t5.regs[r.toNat] = _; rw [r5]
   have m15 : ∀ a : W, a.toNat < IO_START → t5.memAt a = y.memAt a := by
@@ -875,7 +934,7 @@ theorem out_ready (x y : Sim) (hy : OutLoop x y)
     rw [Sim.memAt, mem3]
     exact (mem1.trans mem2) a ha
   refine ⟨t5, ?_, in4.step mem5 ctl5 sup5, by rw [pc5, hpc4]; bv_omega, by rw [regs5]; exact r04,
-    by rw [regs5]; exact sp4, ?_, dev5, (ctl5.trans c41).trans hy.ctl, ?_⟩
+    by rw [regs5]; exact sp4, ?_, dev5, (ctl5.trans c41).trans hy.ctl, ?_, q_t5⟩
   · rw [feN_succ 4 f1, feN_succ 3 f2, feN_succ 2 f3, feN_succ 1 f4, feN_succ 0 f5]; rfl
   · intro r h0 h6'
     rw [regs5, ro4 r h6', ro3 r h0, regs2, ro1 r h0]; exact hy.regs r h0 h6'
@@ -883,25 +942,25 @@ theorem out_ready (x y : Sim) (hy : OutLoop x y)
 
 
 /-- OUT's loop from its head to the RTI, after any number of unsuccessful polls -/
-theorem out_loop (n : Nat) : ∀ (x y : Sim), OutLoop x y → y.iregLookup 0xFE04 = none → y.iregLookup 0xFE06 = none →
+theorem out_loop {Q : DevHandler → Prop} (QS : QuietSet Q) (n : Nat) : ∀ (x y : Sim), Q y.dev → OutLoop x y → y.iregLookup 0xFE04 = none → y.iregLookup 0xFE06 = none →
     ∀ (st : W) (ok : Bool) (d0 d1 d2 : DevHandler),
     Polls 0xFE04 y.dev n d0 → d0.ioRead 0xFE04 true = (some st, d1) → st.msb = true →
     d1.ioWrite 0xFE06 (x.reg 0).data = (ok, d2) →
     ∃ t, feN (2 * n + 5) y = (.ok (), t) ∧ InOs t ∧ t.pc = BitVec.ofNat 16 (vec 0x21 + 7) ∧ t.reg 0 = x.reg 0 ∧
       (t.reg R6).data = (x.reg R6).data ∧ (∀ r, r ≠ 0 → r ≠ R6 → t.reg r = x.reg r) ∧ t.dev = d2 ∧
-      ctl t = ctl x ∧ (∀ a : W, a.toNat < IO_START → a ≠ (x.reg R6).data - 1 → t.memAt a = x.memAt a) := by
+      ctl t = ctl x ∧ (∀ a : W, a.toNat < IO_START → a ≠ (x.reg R6).data - 1 → t.memAt a = x.memAt a) ∧ Q t.dev := by
   induction n with
   | zero =>
-    intro x y hy l1 l2 st ok d0 d1 d2 hp hr hst hw
+    intro x y q_y hy l1 l2 st ok d0 d1 d2 hp hr hst hw
     cases hp
-    exact out_ready x y hy l1 l2 st ok d1 d2 hr hst hw
+    exact out_ready QS x y q_y hy l1 l2 st ok d1 d2 hr hst hw
   | succ k ih =>
-    intro x y hy l1 l2 st ok d0 d1 d2 hp hr hst hw
+    intro x y q_y hy l1 l2 st ok d0 d1 d2 hp hr hst hw
     cases hp with
     | succ hr0 hst0 hrest =>
-      obtain ⟨y', fy, hy', devy⟩ := out_wait x y hy l1 _ _ hr0 hst0
+      obtain ⟨y', fy, hy', devy, q_y'⟩ := out_wait QS x y q_y hy l1 _ _ hr0 hst0
       have cc : ctl y' = ctl y := hy'.ctl.trans hy.ctl.symm
-      obtain ⟨t, ft, rest⟩ := ih x y' hy' (by rw [lookup_of_ctl cc]; exact l1) (by rw [lookup_of_ctl cc]; exact l2)
+      obtain ⟨t, ft, rest⟩ := ih x y' q_y' hy' (by rw [lookup_of_ctl cc]; exact l1) (by rw [lookup_of_ctl cc]; exact l2)
         st ok d0 d1 d2 (by rw [devy]; exact hrest) hr hst hw
       refine ⟨t, ?_, rest⟩
       rw [show 2 * (k + 1) + 5 = 2 + (2 * k + 5) from by omega, feN_add 2 (2 * k + 5) fy]; exact ft
@@ -912,7 +971,7 @@ theorem out_loop (n : Nat) : ∀ (x y : Sim), OutLoop x y → y.iregLookup 0xFE0
     instruction after the TRAP, the display has received exactly one write of R0 to DDR (`d2`) after those status
     reads, and the PSR, every register (R0 included), both stack pointers, the flags and all memory below the I/O
     page except three supervisor-stack cells are unchanged -/
-theorem out_trap (s : Sim) (n : Nat) (hos : OsLoaded s) (hs : s.flags.strict = false) (hat : AtTrap s 0x21)
+theorem out_trap {Q : DevHandler → Prop} (QS : QuietSet Q) (s : Sim) (q_s : Q s.dev) (n : Nat) (hos : OsLoaded s) (hs : s.flags.strict = false) (hat : AtTrap s 0x21)
     (h1 : 767 ≤ (entrySp s - 1).toNat ∧ (entrySp s - 1).toNat < IO_START)
     (h2 : 767 ≤ (entrySp s - 2).toNat ∧ (entrySp s - 2).toNat < IO_START)
     (h3 : 767 ≤ (entrySp s - 3).toNat ∧ (entrySp s - 3).toNat < IO_START)
@@ -920,27 +979,27 @@ theorem out_trap (s : Sim) (n : Nat) (hos : OsLoaded s) (hs : s.flags.strict = f
     (hp : Polls 0xFE04 s.dev n d0) (hr : d0.ioRead 0xFE04 true = (some st, d1)) (hst : st.msb = true)
     (hw : d1.ioWrite 0xFE06 (s.reg 0).data = (ok, d2)) :
     ∃ f, feN (2 * n + 9) s = (.ok (), f) ∧
-      Returned s f (s.pc + 1) true (fun a => a = entrySp s - 3) ∧ f.dev = d2 := by
+      Returned s f (s.pc + 1) true (fun a => a = entrySp s - 3) ∧ f.dev = d2 ∧ Q f.dev := by
   obtain ⟨w, hw'⟩ := Option.isSome_iff_exists.mp vec_defined_20_25.2.1
-  obtain ⟨x, hx, inx, xpc, m2, m1, mo, r6, ro, xprio, hss, hfn, hd, hf, hir, hmcr⟩ :=
-    trap_step_os s 0x21 w hos hs hat.perm hat.plain hat.instr h1 h2 (Or.inl (by decide)) hw'
+  obtain ⟨x, hx, inx, xpc, m2, m1, mo, r6, ro, xprio, hss, hfn, hd, hf, hir, hmcr, q_x⟩ :=
+    trap_step_os QS s q_s 0x21 w hos hs hat.perm hat.plain hat.instr h1 h2 (Or.inl (by decide)) hw'
   have lk : ∀ a, x.iregLookup a = s.iregLookup a := by intro a; unfold iregLookup; rw [hir]
   have c3 : (x.reg R6).data - 1 = entrySp s - 3 := by rw [r6]; bv_omega
-  obtain ⟨y, fy, hy, devy⟩ := out_push x inx (by rw [xpc]; exact vec_word hw') (by rw [c3]; exact h3)
+  obtain ⟨y, fy, hy, devy, q_y⟩ := out_push QS x q_x inx (by rw [xpc]; exact vec_word hw') (by rw [c3]; exact h3)
   have lky : ∀ a, y.iregLookup a = s.iregLookup a := by intro a; rw [lookup_of_ctl hy.ctl, lk]
-  obtain ⟨t, ft, int, tpc, tr0, tsp, tro, tdev, tctl, tmem⟩ := out_loop n x y hy (by rw [lky]; exact l1)
+  obtain ⟨t, ft, int, tpc, tr0, tsp, tro, tdev, tctl, tmem, q_t⟩ := out_loop QS n x y q_y hy (by rw [lky]; exact l1)
     (by rw [lky]; exact l2) st ok d0 d1 d2 (by rw [devy, hd]; exact hp) hr hst
     (by rw [ro 0 (by decide)]; exact hw)
   obtain ⟨_, _, _, _, _, _, _, _, _, _, h7, _⟩ := chkPutc_spec putc_listing
   obtain ⟨hdr, lr⟩ := int.os.decode h7 tpc
-  obtain ⟨f, ff, ret, fdev, fro⟩ := return_from s x t (s.pc + 1) true (fun a => a = entrySp s - 3) h1.2 h2.2 m2 m1
+  obtain ⟨f, ff, ret, fdev, fro, q_f⟩ := return_from QS s x t q_t (s.pc + 1) true (fun a => a = entrySp s - 3) h1.2 h2.2 m2 m1
     mo r6 ro hss hfn hf hir hmcr int (by unfold IO_START; omega) hdr tsp
     (fun r h6 _ => by
       by_cases h0 : r = 0
       · rw [h0]; exact tr0
       · exact tro r h0 h6) tctl
     (fun a ha hne => tmem a ha (by rw [c3]; exact hne)) (by intro e; bv_omega) (by intro e; bv_omega)
-  refine ⟨f, ?_, ret, by rw [fdev, tdev]⟩
+  refine ⟨f, ?_, ret, by rw [fdev, tdev], q_f⟩
   rw [show 2 * n + 9 = 1 + (2 + ((2 * n + 5) + 1)) from by omega, feN_add 1 _ (by rw [feN_succ 0 hx]; rfl),
     feN_add 2 _ fy, feN_add (2 * n + 5) 1 ft, feN_succ 0 ff]; rfl
 
@@ -1044,6 +1103,34 @@ theorem halt_two_steps (s : Sim) (o : BitVec 9)
       rw [tmem a ha]; exact e1memAt a
     · show t.dev = _
       rw [tdev]; exact e1dev
+/-- the same as two public steps, when the poll is quiet -/
+theorem halt_two_public {Q : DevHandler → Prop} (QS : QuietSet Q) (s : Sim) (q_s : Q s.dev) (o : BitVec 9)
+    (hs : s.flags.strict = false) (hsup : PSR.privileged s.psr = true)
+    (hpc : s.pc.toNat + 1 < IO_START)
+    (h0 : SimInstr.decode (s.memAt s.pc).data = .ok (.and 7 7 (.imm 0)))
+    (h1 : SimInstr.decode (s.memAt (s.pc + 1)).data = .ok (.sti 7 o))
+    (hptr : (s.pc + 2 + o.signExtend 16).toNat < IO_START)
+    (hp : (s.memAt (s.pc + 2 + o.signExtend 16)).data = 0xFFFE)
+    (hm : s.iregLookup 0xFFFE = some .mcr) :
+    ∃ s2, feN 2 s = (.ok (), s2) ∧ s2.mcr = false ∧ s2.pc = s.pc + 2 ∧
+      s2.reg 7 = Word.ofData 0 ∧ s2.psr = PSR.setCC s.psr 2 ∧ (∀ r, r ≠ 7 → s2.reg r = s.reg r) ∧
+      (∀ a : W, a ≠ 0xFFFE → s2.memAt a = s.memAt a) ∧ s2.dev = s.dev ∧ Q s2.dev := by
+  obtain ⟨s2, h, a1, a2, a3, a4, a5, a6, a7⟩ := halt_two_steps s o hs hsup hpc h0 h1 hptr hp hm
+  have hpriv : s.defaultCtx.privileged = true := by simp [defaultCtx, hsup]
+  have hf1 : fetchExec s = (.ok (), afterAnd s) := by
+    rw [fetchExec_plain s _ hs (Or.inl hpriv) (by omega) h0, C08.exec_and _ _ _ _ (by exact hs)]; rfl
+  rw [bind_apply, hf1] at h
+  have h' : fetchExec (afterAnd s) = (.ok (), s2) := h
+  have st1 := step_quiet s _ _ (QS.dev q_s) hs (Or.inl hpriv) (by omega) h0 hf1
+  have e1psr : (afterAnd s).psr = PSR.setCC s.psr 2 := by
+    simp [afterAnd, countInstr, setCCOf, operand2, Word.and, fetched, IOff.get]
+  have e1priv : (afterAnd s).defaultCtx.privileged = true := by
+    simp only [defaultCtx, e1psr, PSR.privileged_setCC, hsup, Bool.true_or]
+  have q1 : Q (afterAnd s).dev := q_s
+  have st2 := step_quiet (afterAnd s) s2 (.sti 7 o) (QS.dev q1) hs (Or.inl e1priv)
+    (by show (s.pc + 1).toNat < IO_START; unfold IO_START at *; bv_omega) h1 h'
+  exact ⟨s2, by rw [feN_succ 1 st1, feN_succ 0 st2]; rfl, a1, a2, a3, a4, a5, a6, a7, by rw [a7]; exact q_s⟩
+
 theorem chkHalt_spec {a : Nat} (h : chkHalt a = true) :
     ∃ o ob, dec a = some (.and 7 7 (.imm 0)) ∧ dec (a + 1) = some (.sti 7 o) ∧ dec (a + 2) = some (.br 7 ob) ∧
       osWord (rel9 (a + 1) o) = some 0xFFFE ∧ rel9 (a + 2) ob = a := by
@@ -1057,11 +1144,11 @@ theorem chkHalt_spec {a : Nat} (h : chkHalt a = true) :
 /-- HALT contract on the OS image of the current tree: from any non-strict supervisor-mode state with the OS in memory
     and the PC at the routine the x25 vector points to, the first two instructions clear the MCR bit and touch
     nothing but R7, the condition codes and the MCR cell -/
-theorem halt_contract (s : Sim) (hos : OsLoaded s) (hs : s.flags.strict = false)
+theorem halt_contract {Q : DevHandler → Prop} (QS : QuietSet Q) (s : Sim) (q_s : Q s.dev) (hos : OsLoaded s) (hs : s.flags.strict = false)
     (hsup : PSR.privileged s.psr = true) (hpc : s.pc = BitVec.ofNat 16 (vec 0x25))
     (hm : s.iregLookup 0xFFFE = some .mcr) :
-    ∃ s2, (fetchExec >>= fun _ => fetchExec) s = (.ok (), s2) ∧ s2.mcr = false ∧
-      (∀ r, r ≠ 7 → s2.reg r = s.reg r) ∧ (∀ a : W, a ≠ 0xFFFE → s2.memAt a = s.memAt a) ∧ s2.dev = s.dev := by
+    ∃ s2, feN 2 s = (.ok (), s2) ∧ s2.mcr = false ∧
+      (∀ r, r ≠ 7 → s2.reg r = s.reg r) ∧ (∀ a : W, a ≠ 0xFFFE → s2.memAt a = s.memAt a) ∧ s2.dev = s.dev ∧ Q s2.dev := by
   obtain ⟨o, ob, h0, h1, -, hp, -⟩ := chkHalt_spec halt_listing
   obtain ⟨w0, hw0, hd0⟩ := dec_spec h0
   obtain ⟨w1, hw1, hd1⟩ := dec_spec h1
@@ -1075,11 +1162,11 @@ theorem halt_contract (s : Sim) (hos : OsLoaded s) (hs : s.flags.strict = false)
   have ep : s.pc + 2 + o.signExtend 16 = BitVec.ofNat 16 (rel9 (vec 0x25 + 1) o) := by
     rw [hpc]; unfold rel9; bv_omega
   have hio : IO_START = 0xFE00 := rfl
-  obtain ⟨s2, h, hmcr, -, -, -, hr, hmem, hdev⟩ := halt_two_steps s o hs hsup
+  obtain ⟨s2, h, hmcr, -, -, -, hr, hmem, hdev, q2⟩ := halt_two_public QS s q_s o hs hsup
     (by rw [hpc, BitVec.toNat_ofNat]; omega)
     (by rw [hpc, m0]; exact hd0) (by rw [e1, m1]; exact hd1)
     (by rw [ep, BitVec.toNat_ofNat]; omega) (by rw [ep, mp]; rfl) hm
-  exact ⟨s2, h, hmcr, hr, hmem, hdev⟩
+  exact ⟨s2, h, hmcr, hr, hmem, hdev, q2⟩
 
 /-- with the MCR bit clear the run loop stops at once, and the pause reason counts as a halt -/
 theorem mcr_off_stops (tw : Tripwire) (fuel iter : Nat) (s : Sim) (h : s.mcr = false) :
@@ -1183,35 +1270,93 @@ theorem newSim_mcr_mapped (flags : Flags) (fill : Nat → W) (mcr : Bool) :
 
 /-! ### HALT under real traps, and non-vacuity -/
 
-/-- **HALT contract (real traps).** `TRAP x25` with real traps enabled runs the OS routine, whose first two
-    instructions clear the MCR bit; the run loop then stops (`mcr_off_stops`).  Nothing but R6/R7, the condition
-    codes, the two supervisor-stack cells and the MCR cell changes -/
-theorem halt_trap (s : Sim) (hos : OsLoaded s) (hs : s.flags.strict = false) (hrt : s.flags.realTraps = true)
+/-- **HALT contract (real traps).** A `TRAP x25` fetched and executed with real traps enabled enters the OS routine,
+    whose first two instructions clear the MCR bit; the run loop then stops (`mcr_off_stops`).  Nothing but R6/R7, the
+    condition codes, the two supervisor-stack cells and the MCR cell changes -/
+theorem halt_trap {Q : DevHandler → Prop} (QS : QuietSet Q) (s : Sim) (q_s : Q s.dev) (hos : OsLoaded s) (hs : s.flags.strict = false)
+    (hrt : s.flags.realTraps = true) (hat : AtTrap s 0x25)
     (h1 : 767 ≤ (entrySp s - 1).toNat ∧ (entrySp s - 1).toNat < IO_START)
     (h2 : 767 ≤ (entrySp s - 2).toNat ∧ (entrySp s - 2).toNat < IO_START)
     (hm : s.iregLookup 0xFFFE = some .mcr) :
-    ∃ f, (execInstr (.trap 0x25) >>= fun _ => feN 2) s = (.ok (), f) ∧ f.mcr = false ∧
+    ∃ f, feN 3 s = (.ok (), f) ∧ f.mcr = false ∧
       (∀ r, r ≠ 7 → r ≠ R6 → f.reg r = s.reg r) ∧ f.dev = s.dev ∧
       (∀ a : W, a.toNat < IO_START → a ≠ entrySp s - 1 → a ≠ entrySp s - 2 → f.memAt a = s.memAt a) := by
   obtain ⟨w, hw⟩ := Option.isSome_iff_exists.mp vec_defined_20_25.2.2
-  obtain ⟨x, hx, inx, xpc, m2, m1, mo, r6, ro, xprio, hss, hfn, hd, hf, hir, hmcr⟩ :=
-    trap_entry_os s 0x25 w hos hs h1 h2 (Or.inr hrt) hw
-  obtain ⟨f, hf2, fm, fr, fmem, fdev⟩ := halt_contract x inx.os inx.nonstrict inx.sup (by rw [xpc]; exact vec_word hw)
+  obtain ⟨x, hx, inx, xpc, m2, m1, mo, r6, ro, xprio, hss, hfn, hd, hf, hir, hmcr, q_x⟩ :=
+    trap_step_os QS s q_s 0x25 w hos hs hat.perm hat.plain hat.instr h1 h2 (Or.inr hrt) hw
+  obtain ⟨f, hf2, fm, fr, fmem, fdev, _⟩ := halt_contract QS x q_x inx.os inx.nonstrict inx.sup (by rw [xpc]; exact vec_word hw)
     (by unfold iregLookup; rw [hir]; exact hm)
-  refine ⟨f, ?_, fm, ?_, by rw [fdev, hd], ?_⟩
-  · rw [bind_apply, hx]
-    show feN 2 x = _
-    have : (fetchExec >>= fun _ => fetchExec) x = feN 2 x := by
-      show _ = (fetchExec >>= fun _ => (fetchExec >>= fun _ => (Pure.pure () : SimM Unit))) x
-      simp only [bind_apply, pure_apply]
-      rcases fetchExec x with ⟨_ | _, u⟩
-      · rfl
-      · simp only
-        rcases fetchExec u with ⟨_ | _, v⟩ <;> rfl
-    rw [← this]; exact hf2
+  refine ⟨f, by rw [feN_succ 2 hx]; exact hf2, fm, ?_, by rw [fdev, hd], ?_⟩
   · intro r h7 h6; rw [fr r h7, ro r h6]
   · intro a ha n1 n2
     rw [fmem a (by intro e; rw [e] at ha; unfold IO_START at ha; simp at ha), mo a n1 n2]
+
+/-! ### the default devices never interrupt -/
+
+/-- the default device set (keyboard with interrupts disabled, display, nothing else), in any buffer/lock state -/
+def StdDev (h : DevHandler) : Prop :=
+  h.ports = DevHandler.new.ports ∧ ∃ kb lk ds ld, h.devices = #[.null, .keyboard kb false lk, .display ds ld]
+
+theorem std_ports : ∀ i : Fin 512, DevHandler.new.ports[i] = 0 ∨ DevHandler.new.ports[i] = 1 ∨ DevHandler.new.ports[i] = 2 := by
+  decide +kernel
+
+theorem std_ddr : DevHandler.new.getDevId 0xFE06 = some 2 := by decide +kernel
+
+theorem std_quiet (h : DevHandler) (hs : StdDev h) : h.pollInterrupt = (none, h) := by
+  obtain ⟨hp, kb, lk, ds, ld, hd⟩ := hs
+  obtain ⟨devs, ports⟩ := h
+  simp only at hd hp
+  subst hd
+  simp [DevHandler.pollInterrupt, DevHandler.pollStep, Device.poll]
+
+theorem std_read (h : DevHandler) (port : W) (hs : StdDev h) : StdDev (h.ioRead port true).2 := by
+  obtain ⟨hp, kb, lk, ds, ld, hd⟩ := hs
+  obtain ⟨devs, ports⟩ := h
+  simp only at hd hp
+  subst hd; subst hp
+  unfold DevHandler.ioRead DevHandler.getDevId
+  cases hi : DevHandler.portIdx port with
+  | none => simp only [Option.map_none]; exact ⟨rfl, kb, lk, ds, ld, rfl⟩
+  | some i =>
+    simp only [Option.map_some]
+    have g0 : (#[Device.null, Device.keyboard kb false lk, Device.display ds ld] : Array Device).getD 0 .null = .null := rfl
+    have g1 : (#[Device.null, Device.keyboard kb false lk, Device.display ds ld] : Array Device).getD 1 .null = .keyboard kb false lk := rfl
+    have g2 : (#[Device.null, Device.keyboard kb false lk, Device.display ds ld] : Array Device).getD 2 .null = .display ds ld := rfl
+    rcases std_ports i with e | e | e <;> rw [e]
+    · rw [g0]; exact ⟨rfl, kb, lk, ds, ld, by simp [Device.ioRead, Array.setIfInBounds]⟩
+    · rw [g1]
+      refine ⟨rfl, ?_⟩
+      by_cases h1 : port = KBSR
+      · exact ⟨kb, lk, ds, ld, by simp [Device.ioRead, h1, Array.setIfInBounds]⟩
+      · by_cases h2 : port = KBDR
+        · have hne : ¬ KBDR = KBSR := by decide
+          cases lk
+          · cases kb with
+            | nil => exact ⟨[], false, ds, ld, by simp [Device.ioRead, h2, hne, Array.setIfInBounds]⟩
+            | cons b rest => exact ⟨rest, false, ds, ld, by simp [Device.ioRead, h2, hne, Array.setIfInBounds]⟩
+          · exact ⟨kb, true, ds, ld, by simp [Device.ioRead, h2, hne, Array.setIfInBounds]⟩
+        · exact ⟨kb, lk, ds, ld, by simp [Device.ioRead, h1, h2, Array.setIfInBounds]⟩
+    · rw [g2]
+      refine ⟨rfl, kb, lk, ds, ld, ?_⟩
+      by_cases h1 : port = DSR <;> simp [Device.ioRead, h1, Array.setIfInBounds]
+
+theorem std_write_ddr (h : DevHandler) (v : W) (hs : StdDev h) : StdDev (h.ioWrite 0xFE06 v).2 := by
+  obtain ⟨hp, kb, lk, ds, ld, hd⟩ := hs
+  obtain ⟨devs, ports⟩ := h
+  simp only at hd hp
+  subst hd; subst hp
+  have hid : ({ devices := #[Device.null, Device.keyboard kb false lk, Device.display ds ld], ports := DevHandler.new.ports } : DevHandler).getDevId 0xFE06 = some 2 := std_ddr
+  unfold DevHandler.ioWrite
+  rw [hid]
+  have g2 : (#[Device.null, Device.keyboard kb false lk, Device.display ds ld] : Array Device).getD 2 .null = .display ds ld := rfl
+  simp only [g2]
+  refine ⟨rfl, ?_⟩
+  cases ld
+  · exact ⟨kb, lk, ds.push (UInt8.ofNat (v.toNat % 256)), false, by simp [Device.ioWrite, DDR, Array.setIfInBounds]⟩
+  · exact ⟨kb, lk, ds, true, by simp [Device.ioWrite, DDR, Array.setIfInBounds]⟩
+
+/-- the default device set is a quiet set -/
+theorem stdDev_quiet : QuietSet StdDev := ⟨std_quiet, std_read, std_write_ddr⟩
 
 theorem newSim_fields (flags : Flags) (fill : Nat → W) (os : List (W × List (Option W))) (mcr : Bool) :
     (newSim flags fill os mcr).flags = flags ∧ (newSim flags fill os mcr).psr = PSR.new ∧
@@ -1225,7 +1370,7 @@ theorem withDev_memAt (s : Sim) (d : DevHandler) (a : W) : (withDev s d).memAt a
 
 /-- a freshly built simulator with `TRAP x20` at x3000 and one byte waiting in the keyboard -/
 def demo (fill : Nat → W) (b : UInt8) : Sim :=
-  (withDev (newSim {} fill Gen.osBlocks true) (DevHandler.new.setKeyboard (.keyboard [b] false false))).setMem
+  (withDev (newSim {} fill Gen.osBlocks true) ((DevHandler.new.setKeyboard (.keyboard [b] false false)).setDisplay (.display #[] false))).setMem
     0x3000 (Word.ofData 0xF020)
 
 theorem demo_osLoaded (fill : Nat → W) (b : UInt8) : OsLoaded (demo fill b) := by
@@ -1247,19 +1392,20 @@ set_option maxRecDepth 100000 in
 theorem demo_getc (fill : Nat → W) : ∃ f, feN 5 (demo fill 65) = (.ok (), f) ∧ f.reg 0 = Word.ofData 65 ∧ f.pc = 0x3001 := by
   obtain ⟨nf, np, ns, ni, npc⟩ := newSim_fields {} fill Gen.osBlocks true
   obtain ⟨mf, mp, ms, mi, mpc, md⟩ := mk_fields (newSim {} fill Gen.osBlocks true)
-    (DevHandler.new.setKeyboard (.keyboard [65] false false)) 0x3000 (Word.ofData 0xF020)
+    ((DevHandler.new.setKeyboard (.keyboard [65] false false)).setDisplay (.display #[] false)) 0x3000 (Word.ofData 0xF020)
   have dfl : (demo fill 65).flags = {} := mf.trans nf
   have dpsr : (demo fill 65).psr = PSR.new := mp.trans np
   have dss : (demo fill 65).savedSp = Word.ofData 0x3000 := ms.trans ns
   have dir : (demo fill 65).iregs = defaultIregs := mi.trans ni
   have dpc : (demo fill 65).pc = 0x3000 := mpc.trans npc
-  have ddev : (demo fill 65).dev = DevHandler.new.setKeyboard (.keyboard [65] false false) := md
+  have ddev : (demo fill 65).dev = (DevHandler.new.setKeyboard (.keyboard [65] false false)).setDisplay (.display #[] false) := md
   have esp : entrySp (demo fill 65) = 0x3000 := by
     unfold entrySp; rw [dpsr, dss]; rfl
   have hat : AtTrap (demo fill 65) 0x20 := by
     refine ⟨Or.inr (by rw [dpc]; decide), by rw [dpc]; decide, ?_⟩
     rw [dpc]; unfold demo; rw [Sim.memAt_setMem, if_pos rfl]; rfl
-  obtain ⟨f, hf, ret, r0, _⟩ := getc_trap (demo fill 65) 0 (demo_osLoaded fill 65) (by rw [dfl]) hat
+  have qd : StdDev (demo fill 65).dev := by rw [ddev]; exact ⟨rfl, [65], false, #[], false, rfl⟩
+  obtain ⟨f, hf, ret, r0, _⟩ := getc_trap stdDev_quiet (demo fill 65) qd 0 (demo_osLoaded fill 65) (by rw [dfl]) hat
     (by rw [esp]; decide) (by rw [esp]; decide)
     (by unfold iregLookup; rw [dir]; decide) (by unfold iregLookup; rw [dir]; decide) 0x8000 65
     _ (((demo fill 65).dev.ioRead 0xFE00 true).2) ((((demo fill 65).dev.ioRead 0xFE00 true).2.ioRead 0xFE02 true).2)
